@@ -33,7 +33,16 @@ REQUIRED_THEOREMS = [
     "adaptive_euler_model_global_error", "adaptive_richardson_model_global_error", "ab2Stepper_persistent",
     "ctl_constants_sane", "rkf45_local_error_le_estimate_plus_fifth", "adaptive_rkf45_model_global_error",
     "rkf45_estimate_is_not_a_bound",
+    "euler_stage_times", "rk4_stage_times", "rkf45_stage_times", "implicit_stage_times", "cn_stage_times", "ab2_stage_times",
+    "eulerRichardson_stage_times", "fixedStepper_stage_times", "adaptive_end_any_arithmetic", "adaptive_clipped_end_exact",
+    "fixedStepper_is_iterate_field", "fixedStepper_euler_complexLike", "fixedStepper_rk4_complexLike",
+    "adaptive_terminates", "adaptive_finishes_exact_or_floor", "eulerAdaptive_finishes_exact_or_floor",
+    "rk4Times_extracted", "rkfTimes_extracted", "ab2Times_extracted", "fixedStepper_callTimes",
+    "shrinks_ctlOf", "adaptive_terminates_ctlOf",
+    "adaptiveStepper_stage_times", "eulerAdaptiveStepper_stage_times", "adaptiveStepper_rkf45_stage_times",
+    "adaptiveStepper_richardson_stage_times",
 ]
+EXTRA_PROP_FILES = ["C06Gen"]  # theorems that need no ordered field (any arithmetic / any field), stage times of whole calls
 
 # theorems of Props/C06.lean whose statement is about the constants of Generated/Tableau.lean:
 # a failing build whose errors all lie inside these theorems is a broken *generated* proof
@@ -42,6 +51,8 @@ GENERATED_DEPENDENT = [
     "rk4_tableau", "rk4_amp", "rk4_quadrature", "ab2_numba_same", "ab2_recursion", "ab2_first_step",
     "ab2_quadrature", "rkf45_rowsum", "rkf45_high_weights", "rkf45_amp4", "rkf45_amp5", "rkf45_quadrature",
     "rkf45_quadrature5", "rkf45_order4", "rkf45_order5", "ctl_constants_sane", "ctl_threshold_consistent",
+    "rk4_stage_times", "rkf45_stage_times", "ab2_stage_times",
+    "rk4Times_extracted", "rkfTimes_extracted", "ab2Times_extracted",
 ]
 
 RULE = ("linear test equations u' = a u + b0 + b1 t + b2 t^2 + b3 t^3 (real and complex a; flavours: "
@@ -798,6 +809,33 @@ def cumulative_steps(segs):
         out.append(s["steps"] - prev)
         prev = s["steps"]
     return out
+
+
+def compare_times(ctx, case, mode, run, val, leg):
+    """the times at which the real stepper evaluates the rate (recording rate function) against `callTimes` of the model
+    (`eulerTimes`, `rk4Times rk4Tab`, `ab2Times`, `implicitTimes`: the stage-time lists of the theorems `*_stage_times`,
+    `fixedStepper_callTimes`); implicit / Crank-Nicolson: the distinct times (the multiplicities are the iteration counts,
+    compared separately)"""
+    if run["calls"] is None or case["via"] != "stepper" or run["error"] is not None:
+        return
+    dt, lo = case["dt"], 0
+    for j, (seg, ms, n) in enumerate(zip(run["segments"], val["segments"], cumulative_steps(run["segments"]))):
+        times = run["calls"][lo:seg["ncalls"]]
+        lo = seg["ncalls"]
+        if ms["steps"] != n:
+            ctx.hist("stage-times-vs-model", "skipped: exact and float step counts differ")
+            return
+        mt = [float(unq(x)) for x in ms["times"]]
+        tol = 1e-9 * abs(dt) + 1e-12 * abs(case["segments"][j][0])
+        if case["solver"] in ("implicit", "crank-nicolson"):
+            times = [g[0] for g in group_times(times, tol)]
+            mt = [g[0] for g in group_times(mt, tol)]
+        if len(times) != len(mt) or any(not abs(x - y) <= tol for x, y in zip(times, mt)):
+            ctx.disagree(leg, {"case": case, "mode": mode}, {"rate_evaluation_times": mt[:16], "n": len(mt)},
+                         {"rate_evaluation_times": times[:16], "n": len(times)},
+                         f"call {j}: times at which the rate is evaluated vs callTimes of the model")
+            return
+    ctx.hist("stage-times-vs-model", "equal")
 
 
 def compare_steps(ctx, case, mode, run, fval, leg):
@@ -1843,6 +1881,7 @@ def evaluate(ctx, tasks, runs, answers, index):
                         raise BrokenCheck(f"c06.steps: {fval}")
                     compare_steps(ctx, case, m, rr[m], fval, "correspondence:" + leg)
                     msegs, merr = decode_model_fixed(case, val)
+                    compare_times(ctx, case, m, rr[m], val, "correspondence:" + leg)
                     if compare_fixed(ctx, case, m, rr[m], msegs, merr, "correspondence:" + leg,
                                      [x[0] for x in fval]):
                         # iteration counts of the implicit schemes against the model's convergence test
